@@ -21,6 +21,9 @@ pub enum Case {
         mag_exp: f64,
         #[serde(default)]
         im_exp: f64,
+        /// single precision: the same checks through the f32 / Complex<f32> instantiations, with the f32 unit roundoff
+        #[serde(default)]
+        single: bool,
     },
     /// A sin(a x + phi) + B exp(b x)
     Smooth { amp: f64, a: f64, phi: f64, bmp: f64, b: f64, x: f64, h: f64 },
@@ -44,7 +47,64 @@ const K2: f64 = 128.0; // rounding constant, second derivative: K2 * eps * S / h
 pub fn run_case(case: &Case) -> Outcome {
     let mut o = Obs::new();
     match case {
-        Case::Poly { complex, coef, x, h, mag_exp, im_exp } => {
+        Case::Poly { complex, coef, x, h, mag_exp, im_exp, single: true } => {
+            // single precision: coefficients, point and step rounded to f32 first; the truth is computed in double
+            // precision from the rounded data; exactness classes only (degree <= 5)
+            use nalgebra::Complex;
+            o.label("single-precision");
+            o.label(if *complex { "complex" } else { "real" });
+            let (fr, fi) = (10f64.powf(mag_exp.clamp(-6.0, 6.0)), 10f64.powf(mag_exp.clamp(-6.0, 6.0) + im_exp.max(-4.0)));
+            let c32: Vec<(f32, f32)> = coef.iter().take(6).map(|&(r, i)| ((r * fr) as f32, if *complex { (i * fi) as f32 } else { 0.0 })).collect();
+            let (x32, h32) = (*x as f32, *h as f32);
+            let (xd, hs) = (x32 as f64, h32 as f64);
+            let h = hs.abs();
+            let deg = c32.len() - 1;
+            o.label(format!("deg{deg}"));
+            let cc: Vec<C64> = c32.iter().map(|&(r, i)| c(r as f64, i as f64)).collect();
+            let (d1, d2): (C64, C64) = if *complex {
+                let f = |t: f32| {
+                    let mut acc = Complex::<f32>::new(0.0, 0.0);
+                    for &(r, i) in c32.iter().rev() {
+                        acc = acc * t + Complex::<f32>::new(r, i);
+                    }
+                    acc
+                };
+                let (a, b) = (derivative::<Complex<f32>>(f, x32, h32), second_derivative::<Complex<f32>>(f, x32, h32));
+                (c(a.re as f64, a.im as f64), c(b.re as f64, b.im as f64))
+            } else {
+                let f = |t: f32| {
+                    let mut acc = 0.0f32;
+                    for &(r, _) in c32.iter().rev() {
+                        acc = acc * t + r;
+                    }
+                    acc
+                };
+                (c(derivative::<f32>(f, x32, h32) as f64, 0.0), c(second_derivative::<f32>(f, x32, h32) as f64, 0.0))
+            };
+            let xc = c(xd, 0.0);
+            let t1 = horner_c(&deriv_coeffs_c(&cc, 1), xc);
+            let t2 = horner_c(&deriv_coeffs_c(&cc, 2), xc);
+            let t4 = horner_c(&deriv_coeffs_c(&cc, 4), xc);
+            let t5 = horner_c(&deriv_coeffs_c(&cc, 5), xc);
+            let eps32 = f32::EPSILON as f64;
+            let s_re = abs_scale_c(&cc.iter().map(|z| c(z.re, 0.0)).collect::<Vec<_>>(), xd.abs() + 2.0 * h);
+            let s_im = abs_scale_c(&cc.iter().map(|z| c(z.im, 0.0)).collect::<Vec<_>>(), xd.abs() + 2.0 * h);
+            let e1 = d1 - t1 - (-t5 * (h.powi(4) / 30.0));
+            let e2 = d2 - t2 - t4 * (h * h / 12.0);
+            let r1 = ratio(e1.re.abs(), K1 * eps32 * s_re / h + 1e-300).max(ratio(e1.im.abs(), K1 * eps32 * s_im / h + 1e-300));
+            let r2 = ratio(e2.re.abs(), K2 * eps32 * s_re / (h * h) + 1e-300).max(ratio(e2.im.abs(), K2 * eps32 * s_im / (h * h) + 1e-300));
+            o.set("ratio_round_first_f32", r1);
+            o.set("ratio_round_second_f32", r2);
+            if !(r1 <= 1.0) {
+                return o.fail(format!("single precision: first derivative of a degree-{deg} polynomial differs from f' (+ the exact h^4 term) by {e1:e}; allowance {K1} eps32 S/h = {:e}", K1 * eps32 * s_re / h));
+            }
+            if !(r2 <= 1.0) {
+                return o.fail(format!("single precision: second derivative of a degree-{deg} polynomial differs from f'' (+ the exact h^2 term) by {e2:e}; allowance {K2} eps32 S/h^2 = {:e}", K2 * eps32 * s_re / (h * h)));
+            }
+            o.nontrivial = deg >= 2;
+            o.pass()
+        }
+        Case::Poly { complex, coef, x, h, mag_exp, im_exp, .. } => {
             let (fr, fi) = (10f64.powf(*mag_exp), 10f64.powf(*mag_exp + *im_exp));
             let coef: &Vec<(f64, f64)> = &coef.iter().map(|&(r, i)| (r * fr, i * fi)).collect();
             if *mag_exp != 0.0 {
@@ -209,8 +269,8 @@ fn step() -> BoxedStrategy<f64> {
 }
 
 fn strategy(_t: Tier) -> BoxedStrategy<Case> {
-    let poly = (any::<bool>(), coef_strategy(6), gen::fl(-3.0, 3.0), step(), (prop_oneof![3 => Just(0.0), 1 => gen::fl(-30.0, 10.0)], prop_oneof![3 => Just(0.0), 1 => gen::fl(-12.0, -3.0)]))
-        .prop_map(|(complex, coef, x, h, (mag_exp, im_exp))| Case::Poly { complex, coef, x, h, mag_exp, im_exp });
+    let poly = (any::<bool>(), coef_strategy(6), gen::fl(-3.0, 3.0), step(), (prop_oneof![3 => Just(0.0), 1 => gen::fl(-30.0, 10.0)], prop_oneof![3 => Just(0.0), 1 => gen::fl(-12.0, -3.0)], prop_oneof![5 => Just(false), 1 => Just(true)]))
+        .prop_map(|(complex, coef, x, h, (mag_exp, im_exp, single))| Case::Poly { complex, coef, x, h, mag_exp, im_exp, single });
     let smooth = (gen::fl(-2.0, 2.0), gen::fl(0.2, 3.0), gen::fl(0.0, 6.0), gen::fl(-2.0, 2.0), gen::fl(-1.5, 1.5), gen::fl(-3.0, 3.0), step())
         .prop_map(|(amp, a, phi, bmp, b, x, h)| Case::Smooth { amp, a, phi, bmp, b, x, h });
     let lin = (
@@ -234,14 +294,14 @@ pub fn run(opts: &Opts) -> i32 {
             for complex in [false, true] {
                 let mut coef = vec![(0.0, 0.0); k + 1];
                 coef[k] = (1.0, if complex { -0.5 } else { 0.0 });
-                spec.enumerated.push(Case::Poly { complex, coef, x, h, mag_exp: 0.0, im_exp: 0.0 });
+                spec.enumerated.push(Case::Poly { complex, coef, x, h, mag_exp: 0.0, im_exp: 0.0, single: false });
             }
         }
     }
     spec.cases = opts.tier.pick(600_000, 20_000_000);
     spec.essential = vec![("deg4", 0.02), ("deg5", 0.02), ("deg3", 0.02), ("complex", 0.1), ("smooth", 0.05), ("linear", 0.05)];
     spec.rule = format!(
-        "generated: polynomials of degree 0..6 (real and complex coefficients in [-3,3]; a quarter of the cases times a common factor 10^[-30,10], a quarter of the complex cases with imaginary parts times 10^[-12,-3]), x in [-3,3], |h| in 10^[-3,-0.3] with a quarter of the steps negative (both formulas are even in h); oracle: exact term-wise derivative; D f - f' must equal -h^4 f^(5)(x)/30 (zero up to degree 4) within {K1} eps S/h, D2 f - f'' must equal h^2 f^(4)(x)/12 (zero up to degree 3) within {K2} eps S/h^2, S = sum|c_k|(|x|+2h)^k, real and imaginary parts each also within their own S (x and h are real: the two parts go through the formulas separately); degree 6 and A sin(ax+phi)+B exp(bx): classical remainder bounds; linearity of both formulas. Non-trivial = polynomial degree >= 2, every smooth and linearity case. Distinct = distinct case JSON."
+        "generated: polynomials of degree 0..6 (real and complex coefficients in [-3,3]; a quarter of the cases times a common factor 10^[-30,10], a quarter of the complex cases with imaginary parts times 10^[-12,-3]; one polynomial case in six through the f32 / Complex<f32> instantiations - degree <= 5, magnitudes within 10^[-6,6], the same bounds with the f32 unit roundoff), x in [-3,3], |h| in 10^[-3,-0.3] with a quarter of the steps negative (both formulas are even in h); oracle: exact term-wise derivative; D f - f' must equal -h^4 f^(5)(x)/30 (zero up to degree 4) within {K1} eps S/h, D2 f - f'' must equal h^2 f^(4)(x)/12 (zero up to degree 3) within {K2} eps S/h^2, S = sum|c_k|(|x|+2h)^k, real and imaginary parts each also within their own S (x and h are real: the two parts go through the formulas separately); degree 6 and A sin(ax+phi)+B exp(bx): classical remainder bounds; linearity of both formulas. Non-trivial = polynomial degree >= 2, every smooth and linearity case. Distinct = distinct case JSON."
     );
     spec.assumptions = vec!["libm sin/exp accurate to a few ulp".into(), "harness Horner evaluation error is covered by the rounding allowance".into()];
     run_spec(spec, opts)
